@@ -256,9 +256,12 @@ def rule_partition(report, prog):
                  'read data is not cut to the announced length')
     # Type 4
     rd = prog.func('nfc.tag.tt4.Type4Tag.NDEF._read_ndef_data')
-    okk = any(isinstance(l, ast.While) and norm(l.test) == 'len(data) < nlen' and
-              [norm(s) for s in l.body] == ['offset = self._nlen_size + len(data)', 'data += self._read_binary(offset, nlen - len(data))']
-              for l in walk_no_nested(rd.node))
+    okk = False
+    for l in walk_no_nested(rd.node):
+        if isinstance(l, ast.While) and norm(l.test) == 'len(data) < nlen':
+            body = [norm(s) for s in l.body if not isinstance(s, ast.If)]
+            okk = body in (['offset = self._nlen_size + len(data)', 'data += self._read_binary(offset, nlen - len(data))'],
+                           ['offset = self._nlen_size + len(data)', 'part = self._read_binary(offset, nlen - len(data))', 'data += part'])
     n += 1
     report.check(okk, 'C01-R4', key(rd.qname, 'reads continue at nlen_size + bytes so far, remaining size'), rd.loc(),
                  'Type 4 read loop no longer appends consecutive chunks')
